@@ -380,3 +380,27 @@ impl TxLedger {
         out
     }
 }
+
+/// C11 first-fragment clause evaluated on the packet as delimited by its own header, for emissions the C06
+/// monitor rejected (reported length and header disagree): the context must still count exactly the payload
+/// bytes an independent reader finds in that packet.
+pub fn check_c11_first_raw(res: &TxRes, after: &[u8], exts: &[(u16, Vec<u8>)], ptype: u16, buf_len: usize) -> Option<Violation> {
+    if let TxRes::Frag(_, ctx) = res {
+        let regime = size_regime(buf_len, 0);
+        let mut table = sender_table(exts, ptype);
+        if exts.is_empty() && ptype < 0x100 {
+            table.entries.push((ptype, MExt::Final(0)));
+        }
+        match wire::parse(after, &table) {
+            Ok(p) if p.kind == Kind::First => {
+                if p.payload.len() != ctx.len_pdu_frag() as usize {
+                    return Some(Violation::new("C11", "C11.first_context_count", format!("header_delimited:{}", regime), format!("context says {} payload bytes, the packet delimited by its GSE length field ({}) carries {}", ctx.len_pdu_frag(), p.gse_len, p.payload.len())));
+                }
+                None
+            }
+            other => Some(Violation::new("C11", "C11.first_context_count", format!("not_a_first_fragment:{}", regime), format!("context says {} payload bytes but the emitted bytes do not parse as a first fragment ({:?})", ctx.len_pdu_frag(), other.map(|p| p.kind)))),
+        }
+    } else {
+        None
+    }
+}
